@@ -285,6 +285,8 @@ pub fn replay(opts: &Opts) -> i32 {
     "wire" => crate::wire_mon::replay(&rep, &mut out),
     "convert" => crate::convert_mon::replay(&rep, &mut out),
     "load" => crate::load_mon::replay(&rep, &mut out),
+    "roundtrip" => crate::roundtrip_mon::replay(&rep, &mut out),
+    "devices" => crate::devices_mon::replay(&rep, &mut out),
     _ => { eprintln!("replay: unknown engine {:?}", engine); return 2; }
   };
   if !ok { eprintln!("replay: malformed replay object"); return 2; }
